@@ -143,12 +143,17 @@ impl Object for Font {
 }
 impl ObjectWrite for Font {
     fn to_primitive(&self, update: &mut impl Updater) -> Result<Primitive> {
-        let mut dict = match self.data {
+        let typed = match self.data {
             FontData::CIDFontType0(ref d) | FontData::CIDFontType2(ref d) => d.to_dict(update)?,
             FontData::TrueType(ref d) | FontData::Type1(ref d) => d.to_dict(update)?,
             FontData::Type0(ref d) => d.to_dict(update)?,
             FontData::Other(ref dict) => dict.clone(),
         };
+        // the entries the typed part does not model (kept in `_other` by the reader, e.g. /Name) are written back too
+        let mut dict = self._other.clone();
+        for (key, value) in typed.iter() {
+            dict.insert(key.clone(), value.clone());
+        }
         
         if let Some(ref to_unicode) = self.to_unicode {
             dict.insert("ToUnicode", to_unicode.to_primitive(update)?);
